@@ -569,6 +569,40 @@ func (m *Model) Deliver(kind, ref string) {
 			}
 		}
 	}
+	// boundary events attached to a sub-process react while its activation holds tokens
+	for _, x := range append([]*activation{}, m.acts...) {
+		if x.sub == nil || x.live <= 0 || x.parent == nil {
+			continue
+		}
+		for _, b := range x.parent.graph.Nodes {
+			if b.Kind != "boundary" || b.Attached != x.sub.ID {
+				continue
+			}
+			hit := false
+			for _, d := range b.Events {
+				if defMatches(d, kind, ref) {
+					hit = true
+				}
+			}
+			if !hit {
+				continue
+			}
+			key := fmt.Sprintf("%s/%d", b.ID, x.id)
+			if m.boundaryFired == nil {
+				m.boundaryFired = map[string]int{}
+			}
+			if b.Interrupting && m.boundaryFired[key] > 0 {
+				continue
+			}
+			any = true
+			m.boundaryFired[key]++
+			m.Fired[b.ID]++
+			x.parent.live += len(b.Out)
+			for _, f := range b.Out {
+				m.arrive(x.parent.graph.Flow(f), x.parent)
+			}
+		}
+	}
 	for _, k := range order {
 		n := k.n
 		if n.Kind == "evgw" {
